@@ -59,4 +59,31 @@ Proof.
   by [].
 Qed.
 
+(* ---------- the eigenvalue branch (matrices above MIN_DIM_SPARSE): cov = u diag(s) u^T with orthogonal u; the code
+   sets sqrtprec = diag(r) u^T with r_i = sqrt(1/s_i), logdet = sum ln s_i.  Same precision and same determinant as
+   the dense branch (inverse / det of cov): the two sides of the storage switch denote one distribution. ---------- *)
+Lemma orth_uut (u : 'M[F]_n) : u^T *m u = 1%:M -> u *m u^T = 1%:M.
+Proof. by move=> h; apply: (mulmx1C h). Qed.
+
+Theorem eigh_branch_prec (u : 'M[F]_n) (s r : 'rV[F]_n) :
+  u^T *m u = 1%:M -> (forall i, r 0 i * r 0 i * s 0 i = 1) ->
+  let S := u *m diag_mx s *m u^T in
+  let R := diag_mx r *m u^T in
+  R^T *m R *m S = 1%:M.
+Proof.
+  move=> uu rs S R; rewrite /S /R {S R}.
+  rewrite trmx_mul trmxK tr_diag_mx.
+  rewrite -!mulmxA (mulmxA u^T u) uu mul1mx.
+  rewrite (mulmxA (diag_mx r) (diag_mx s)) mulmx_diag (mulmxA (diag_mx r)) mulmx_diag.
+  have -> : (\row_j (r 0 j * (\row_j0 (r 0 j0 * s 0 j0)) 0 j)) = const_mx 1 :> 'rV[F]_n.
+    by apply/rowP => j; rewrite !mxE mulrA rs.
+  by rewrite diag_const_mx mulmxA mulmx1 (orth_uut uu).
+Qed.
+
+Theorem eigh_branch_det (u : 'M[F]_n) (s : 'rV[F]_n) :
+  u^T *m u = 1%:M -> \det (u *m diag_mx s *m u^T) = \prod_i s 0 i.
+Proof.
+  move=> uu. rewrite !det_mulmx det_diag det_tr mulrAC -{1}(det_tr u) -det_mulmx uu det1 mul1r. by [].
+Qed.
+
 End Forms.
